@@ -23,6 +23,8 @@ func checkC05(c *Check, a *Anchors) {
 	c05GlobOrder(c, a)
 	c05Generates(c, a)
 	c05Mtime(c, a)
+	timestampStateIsReference(c, a)
+	setupOrder(c, a, "setup-order")
 	// "any edit causes the commands to run again" also needs that queries between the edit and the run do not record the new fingerprint
 	c12DryImplied(c, a)
 	fpWriteDryGuarded(c, a, "queries-do-not-record")
